@@ -273,8 +273,10 @@ func (bf *BinaryField[T]) Add(a ...T) T {
 	}
 	vres := bf.api.Add(va[0], va[1], va[2:]...)
 	maxBitlen := bits.Len(uint(inLen)) + tLen
-	// bitslice.Partition below checks that the input is less than 2^maxBitlen and that we have omitted carry correctly
-	vreslow, _ := bitslice.Partition(bf.api, vres, uint(tLen), bitslice.WithNbDigits(maxBitlen), bitslice.WithUnconstrainedOutputs())
+	// bitslice.Partition below checks that the input is less than 2^maxBitlen and that we have omitted carry correctly.
+	// Its outputs must stay constrained: they are hinted, and without the recomposition and width checks the
+	// low part (the result) is not tied to the sum.
+	vreslow, _ := bitslice.Partition(bf.api, vres, uint(tLen), bitslice.WithNbDigits(maxBitlen))
 	res := bf.ValueOf(vreslow)
 	return res
 }
